@@ -134,3 +134,46 @@ func H_members() {
 	symx.Assert(got == (kind == mtype[target]), "each typed member enforces its own type argument, whichever member was used first")
 	symx.Reach("end")
 }
+
+// H_factory: ONE `new Box<A>()` expression evaluated several times (factory function, loop body):
+// every object it creates enforces A, whichever of them is written first. A single type argument
+// is used, so the recorded first-instantiation finding does not apply.
+func H_factory() {
+	a, kind := symx.Choose("A", 4), symx.Choose("kind", 4)
+	shape := symx.Choose("shape", 2) // 0 factory function called 3 times, 1 loop body
+	first := symx.Choose("first", 3) // which of the three objects is written first
+	via := symx.Choose("via", 2)
+	w := symx.Int("w")
+	src := "class U {}\nclass Box<T> { public T $v; public function set(T $x) { $this->v = $x; return 1; } }\n"
+	if shape == 0 {
+		src += "function mk() { return new Box<" + typeArgs[a] + ">(); }\n$o = [mk(), mk(), mk()];\n"
+	} else {
+		src += "$o = [];\nfor ($i = 0; $i < 3; $i++) { $o[] = new Box<" + typeArgs[a] + ">(); }\n"
+	}
+	wr := func(i int) string {
+		v := "$o[" + string(rune('0'+i)) + "]"
+		if via == 1 {
+			return "try { " + v + "->set(" + valueExprs[kind] + "); mark(1); } catch (Throwable $e) { mark(0); }\n"
+		}
+		return "$t = " + v + "; try { $t->v = " + valueExprs[kind] + "; mark(1); } catch (Throwable $e) { mark(0); }\n"
+	}
+	order := [][3]int{{0, 1, 2}, {1, 2, 0}, {2, 0, 1}}[first]
+	for _, i := range order {
+		src += wr(i)
+	}
+	s := sx.Compile(src)
+	symx.Assert(s.Err == nil, "history parses")
+	if s.Err != nil {
+		return
+	}
+	_, ctl := s.Run(sx.Bind{Name: "pw", V: sx.Int(w)})
+	symx.Assert(ctl == nil && len(sx.Log) == 3, "history runs, one outcome per write")
+	if ctl != nil || len(sx.Log) != 3 {
+		return
+	}
+	for k := 0; k < 3; k++ {
+		got := sx.Log[k].Kind == 'M' && sx.Log[k].I == 1
+		symx.Assert(got == (kind == a), "every object created by the same new-site enforces the site's type argument")
+	}
+	symx.Reach("end")
+}
